@@ -719,9 +719,11 @@ class Message:
         except ValueError as e:
             raise error.MalformedUrlError from e
 
-        if "#" in uri:
+        if uri is not None and "#" in uri:
             # (not parsed.fragment: that is as empty for "coap://host/path#",
-            # which has a fragment identifier, as it is without one)
+            # which has a fragment identifier, as it is without one. No URI at
+            # all -- as OSCORE finds for the outer message of a request that
+            # has none -- is an incomplete one, below.)
             raise error.MalformedUrlError(
                 "Fragment identifiers can not be set on a request URI"
             )
